@@ -127,27 +127,42 @@ def blockValidate (b : Block) : Bool :=
   | 11 => v 0 ≤ 15 && v 1 ≤ 15 && v 3 == 0 && v 4 == 0
   | _ => true
 
-/-- the `(width, value)` pairs a level's `write` emits, in order -/
+/-- widths emitted by each level's `write`, in order (transliterated from the `write` functions: note the
+`self.length > k` thresholds of L8/L9/L10); `none` = Reserved ("Cannot write reserved block") -/
+def blockWriteLayout (level length : Nat) : Option (List Nat) :=
+  match level with
+  | 1 => some [12, 12, 12]
+  | 2 => some [12, 12, 12, 12, 12, 12, 13]
+  | 3 => some [12, 12, 12]
+  | 4 => some [12, 12]
+  | 5 => some [13, 13, 13, 13]
+  | 6 => some [16, 16, 16, 16]
+  | 8 => some ([8, 12, 12, 12, 12, 12, 12] ++ (if length > 10 then [12] else []) ++
+               (if length > 12 then [12] else []) ++ (if length > 13 then [8, 8, 8, 8, 8, 8] else []) ++
+               (if length > 19 then [8, 8, 8, 8, 8, 8] else []))
+  | 9 => some ([8] ++ (if length > 1 then [16, 16, 16, 16, 16, 16, 16, 16] else []))
+  | 10 => some ([8, 12, 12, 8] ++ (if length > 5 then [16, 16, 16, 16, 16, 16, 16, 16] else []))
+  | 11 => some [8, 8, 8, 8]
+  | 254 => some [8, 8]
+  | 255 => some [8, 8, 8, 8, 8, 8]
+  | _ => none
+
+/-- the values a level's `write` emits, in order, before they are width-encoded: the struct fields, except
+L11 which folds `reference_mode_flag` into the whitepoint byte (`wp += 16`) -/
+def blockWriteVals (b : Block) : List Int :=
+  match b.level, b.vals with
+  | 11, [ct, wp, ref, r2, r3] => [ct, (wp.toNat + (if ref != 0 then 16 else 0)) % 256, r2, r3]
+  | _, vals => vals
+
+/-- one emitted field: `write_n`, except L2's `ms_weight` which is `write_signed_n(…, 13)` -/
+def writeBlockField (level : Nat) (w : Nat) (v : Int) : Res Bits :=
+  if level == 2 && w == 13 then writeSigned16 13 v else writeN w v.toNat
+
+/-- the fields a level's `write` emits (a short variable-length block emits a prefix of its struct) -/
 def blockWriteFields (b : Block) : List (Res Bits) :=
-  let v (i : Nat) : Int := b.vals.getD i 0
-  let u (n i : Nat) : Res Bits := writeN n (v i).toNat
-  match b.level with
-  | 1 => [u 12 0, u 12 1, u 12 2]
-  | 2 => [u 12 0, u 12 1, u 12 2, u 12 3, u 12 4, u 12 5, writeSigned16 13 (v 6)]
-  | 3 => [u 12 0, u 12 1, u 12 2]
-  | 4 => [u 12 0, u 12 1]
-  | 5 => [u 13 0, u 13 1, u 13 2, u 13 3]
-  | 6 => [u 16 0, u 16 1, u 16 2, u 16 3]
-  | 8 => [u 8 0, u 12 1, u 12 2, u 12 3, u 12 4, u 12 5, u 12 6] ++
-         (if b.length > 10 then [u 12 7] else []) ++ (if b.length > 12 then [u 12 8] else []) ++
-         (if b.length > 13 then (List.range 6).map (fun i => u 8 (9 + i)) else []) ++
-         (if b.length > 19 then (List.range 6).map (fun i => u 8 (15 + i)) else [])
-  | 9 => [u 8 0] ++ (if b.length > 1 then (List.range 8).map (fun i => u 16 (1 + i)) else [])
-  | 10 => [u 8 0, u 12 1, u 12 2, u 8 3] ++ (if b.length > 5 then (List.range 8).map (fun i => u 16 (4 + i)) else [])
-  | 11 => [u 8 0, writeN 8 (((v 1).toNat + (if v 2 != 0 then 16 else 0)) % 256), u 8 3, u 8 4]
-  | 254 => [u 8 0, u 8 1]
-  | 255 => [u 8 0, u 8 1, u 8 2, u 8 3, u 8 4, u 8 5]
-  | _ => [.error]            -- Reserved: "Cannot write reserved block"
+  match blockWriteLayout b.level b.length with
+  | some ws => (ws.zip (blockWriteVals b)).map fun (w, v) => writeBlockField b.level w v
+  | none => [.error]
 
 /-- one block inside `WithExtMetadataBlocks::write` -/
 def writeBlock (b : Block) : Res Bits :=
